@@ -426,6 +426,49 @@ theorem C04_div_zero_function_raises (st : St) (k : Nat) (s : Sig.Sig) (hs : st.
 theorem C04_fn_values_decreasing_grid :
     fnValues ⟨[2, 1, 0], [3], [0], [1], [[0, 0]], [[]]⟩ = some [5, 3, 1] := by decide +kernel
 
+/-! ## stateful generating functions
+
+`Sig.step` treats generating functions as immutable codes.  For callable OBJECTS with mutable state
+the unchanged code promises independence through `copy.deepcopy(self._functions)` in `copy()` (and
+hence in `with_times`, `*`, `/`, reflected `*`, sums with an `EmptySignal`) and
+`copy.deepcopy(other._functions)` in `FunctionSignal.__add__`.  The small model `Sig.deepcopyFns`
+carries that promise; it is tied to the code by the search oracle (function objects are poked in
+place and all other signals watched), not by the correspondence run. -/
+
+/-- the deep copy of a function list has the same length, evaluates like the original (plain
+functions are kept, callable objects duplicated with their current state) and every state cell of
+the copy is freshly allocated -/
+theorem C04_fn_objects_deepcopied (fs : List FnRef) (h : Heap) (hlt : ∀ f ∈ fs, ∀ c ∈ f.stateIds, c < h.next) :
+    (deepcopyFns h fs).2.length = fs.length ∧
+    (∀ f ∈ (deepcopyFns h fs).2, ∀ c ∈ f.stateIds, h.next ≤ c ∧ c < (deepcopyFns h fs).1.next) ∧
+    (∀ (i : Nat) (t : Rat), ((deepcopyFns h fs).2[i]?).map (fun f => fnRefEval (deepcopyFns h fs).1 f t) =
+            (fs[i]?).map (fun f => fnRefEval h f t)) :=
+  deepcopyFns_spec fs h hlt
+
+/-- neither side follows the other: changing the state of any function object of the ORIGINAL in
+place (any cell that existed before the copy) leaves every function of the COPY unchanged, and
+changing a state cell of the copy leaves every original function unchanged -/
+theorem C04_fn_objects_independent (fs : List FnRef) (h : Heap) (hlt : ∀ f ∈ fs, ∀ c ∈ f.stateIds, c < h.next)
+    (c : Nat) (a : Arr) (t : Rat) :
+    (c < h.next → ∀ f ∈ (deepcopyFns h fs).2,
+        fnRefEval ((deepcopyFns h fs).1.set c a) f t = fnRefEval (deepcopyFns h fs).1 f t) ∧
+    (h.next ≤ c → ∀ f ∈ fs,
+        fnRefEval ((deepcopyFns h fs).1.set c a) f t = fnRefEval h f t) := by
+  have hs := deepcopyFns_spec fs h hlt
+  have hm := deepcopyFns_mono fs h
+  constructor
+  · intro hc f hf
+    apply fnRefEval_congr
+    intro c' hc'
+    have := (hs.2.1 f hf c' hc').1
+    exact set_cell_ne a (by omega)
+  · intro hc f hf
+    apply fnRefEval_congr
+    intro c' hc'
+    have hlt' := hlt f hf c' hc'
+    rw [set_cell_ne a (by omega)]
+    exact hm.2 c' hlt'
+
 /-! ## filtering a function-backed signal (mixed histories: filtered function signals + sampled ones) -/
 
 /-- `FunctionSignal.filter_frequencies` works in place on the inner filter lists only: same object,
@@ -478,6 +521,11 @@ example : interp0 [0, 1, 3] [5, 7, 1] 2 = 7 + (1 - 7) / (3 - 1) * (2 - 1) :=
 example : interp0 [0, 1, 3] [5, 7, 1] 4 = 0 ∧ interp0 [0, 1, 3] [5, 7, 1] (-1) = 0 := by decide +kernel
 -- padding and truncation on concrete arrays
 example : fit 4 [1, 2] = [1, 2, 0, 0] ∧ fit 1 [1, 2] = [1] := by decide +kernel
+-- a stateful template (amplitude 2, offset 1 in cell 0) next to a plain function: the copy gets a new
+-- state cell and evaluates alike; poking the original's cell afterwards does not reach the copy
+example : (deepcopyFns ⟨fun _ => [2, 1], 1⟩ [.object 3 0, .plain 1]).2 = [.object 3 1, .plain 1] := rfl
+example : fnRefEval ((deepcopyFns ⟨fun _ => [2, 1], 1⟩ [.object 3 0, .plain 1]).1.set 0 [9, 9]) (.object 3 1) 2 = 11 := by
+  decide +kernel
 -- the value-type refusal and the neutral cases
 example : coerce .voltage .field = none ∧ coerce .undefined .power = some .power := by decide
 -- re-gridding the same object twice gives the same answer (nothing is remembered between calls)
